@@ -10,6 +10,10 @@ const DEFECTS: &[Defect] = &[Defect::DupStrStr, Defect::DupStrMetric, Defect::Du
 fn metric1() -> VCall { VCall::Metric(vec![Obs::U(1)], UnitS::None, vec![], Flag::None) }
 
 /// Inject one defect at (roughly) position `pos`; returns false when the entry offers no place for it.
+/// dimension names the entry itself declares through an EntryDimensions config
+fn entry_declared_dims(items: &[Item]) -> Vec<String> {
+    items.iter().flat_map(|i| match i { Item::Config(CItem::EntryDims(d)) => d.concat(), _ => vec![] }).collect()
+}
 fn inject(items: &mut Vec<Item>, cfg: &Config, d: Defect, pos: usize, rng: &mut Rng) -> bool {
     // never split the (Unroutable config, MetriqueValidationError value) pair
     let at = |items: &Vec<Item>| { let p = std::cmp::min(pos, items.len()); if p > 0 && matches!(items[p - 1], Item::Config(CItem::Unroutable)) { p - 1 } else { p } };
@@ -24,14 +28,16 @@ fn inject(items: &mut Vec<Item>, cfg: &Config, d: Defect, pos: usize, rng: &mut 
         Defect::EmptyName => { let p = at(items); items.insert(p, Item::Value("".into(), if rng.chance(1, 3) { VCall::Nothing } else { VCall::Str("v".into()) })); }
         Defect::AwsName => { let p = at(items); items.insert(p, Item::Value("_aws".into(), if rng.chance(1, 2) { metric1() } else { VCall::Str("v".into()) })); }
         Defect::MetricUnderDim => {
-            let dims = cfg.default_dims.concat();
+            let mut dims = cfg.default_dims.concat();
+            dims.extend(entry_declared_dims(items));
             if dims.is_empty() || unroutable { return false; }
             let n = rng.pick(&dims).clone();
             items.retain(|i| !matches!(i, Item::Value(x, _) if *x == n));
             let p = at(items); items.insert(p, Item::Value(n, metric1()));
         }
         Defect::MissingDim => {
-            let dims = cfg.default_dims.concat();
+            let mut dims = cfg.default_dims.concat();
+            dims.extend(entry_declared_dims(items));
             if dims.is_empty() || unroutable { return false; }
             let n = rng.pick(&dims).clone();
             items.retain(|i| !matches!(i, Item::Value(x, _) if *x == n));
